@@ -366,6 +366,11 @@ class Gen:
                 pool += self.case["externs"]
                 pool += self.code_labels[:3]
                 lines.append({"k": "call", "t": rng.choice(pool)})
+                if self.knobs.get("double_call_p") and \
+                        rng.random() < self.knobs["double_call_p"]:
+                    # the same callee twice in one patch: two return sites
+                    lines.append({"k": rng.choice(ORD_KEYS)})
+                    lines.append(dict(lines[-2]))
             elif r < 0.93:
                 lines.append({"k": "icall"})
             elif self.code_labels:
